@@ -82,12 +82,12 @@ theorem noloc_all_none (fl : Flags) (hf : fl.noLocation = true) (toks : List Tok
     have := checkAll_noLoc fl hf _ _ _ _ _ hm
     simp [noLocAll] at this; exact this.2.1
 
-/-- FULL STATEMENT of `noloc_erasure`: the `no_location` tree is the located tree with every `loc` erased.
-    Proved here: accept/reject does not depend on `no_location` for values and types (`noloc_accepts_partial`),
-    and every `loc` is absent (`noloc_all_none`).  MISSING: an `erase` function on the AST and the equation
-    `parse {fl with noLocation := true} toks = (parse fl toks).map erase`; the direct oracle compares the two
-    `to_dict()`s on every accepted input (corr/C02_spans.py `check_noloc`). -/
-def NolocErasureStatement : Prop :=
+/-- A CONSEQUENCE of the full `noloc_erasure` statement ("the `no_location` tree is the located tree with every
+    `loc` erased"): accept/reject does not depend on `no_location`.  NOT PROVED (kept visible): it needs an `erase`
+    function on the AST and `parse {fl with noLocation := true} toks = (parse fl toks).map erase`.  Proved above:
+    every `loc` is absent (`noloc_all_none`).  The direct oracle compares the two `to_dict()`s on every accepted
+    input (corr/C02_spans.py `check_noloc`). -/
+def NolocAcceptanceStatement : Prop :=
   ∀ (fl : Flags) (toks : List Tok), (parseType { fl with noLocation := true } toks).toBool = (parseType fl toks).toBool
 
 /-! ### non-vacuity -/
